@@ -49,6 +49,7 @@ static void run_typed(const Cfg& c) {
     std::vector<std::vector<uint64_t>> logs(c.threads);
     bool bad_thread_num = false;
     std::atomic<int> inside_hit(0), arrived(0);
+    std::atomic<bool> gate_done(false);
     std::vector<uint8_t> seen_thread(c.threads, 0); // per-thread flag, written only by that thread
     std::function<bool(IntT, size_t)> fn = [&](IntT v, size_t tn) -> bool {
       uint64_t off = static_cast<uint64_t>(static_cast<U>(static_cast<U>(v) - static_cast<U>(start)));
@@ -56,17 +57,18 @@ static void run_typed(const Cfg& c) {
         bad_thread_num = true;
         return false;
       }
-      if (logs[tn].size() < 200000) logs[tn].push_back(off);
+      if (logs[tn].size() < 2100000) logs[tn].push_back(off);
       // start gate: the first worker to get a value waits (bounded, <= 1 ms) for a second worker to arrive, so the
       // run really is concurrent instead of one thread finishing the range before the others have started
       if (!seen_thread[tn]) {
         seen_thread[tn] = 1;
         arrived.fetch_add(1);
       }
-      if (c.threads >= 2 && c.count >= 2 && arrived.load() < 2) {
+      if (c.threads >= 2 && c.count >= 2 && !gate_done.load() && arrived.load() < 2) {
         uint64_t t0 = phosg::now();
         while (arrived.load() < 2 && phosg::now() - t0 < 1000) {
         }
+        gate_done.store(true); // one wait per run: with a single block only one worker ever gets work
       }
       bool hit = c.big ? (off == c.hit_rem) : (c.hit_mod != 0 && (off % c.hit_mod) == c.hit_rem);
       if (hit && c.rendezvous && c.threads >= 2) {
@@ -143,7 +145,8 @@ static void run_typed(const Cfg& c) {
 
 static void run_stress(const Case& k) {
   Cfg c{k.u(0), k.u(1), k.u(2), k.u(3), k.u(4), k.u(5), k.u(6), k.u(7), k.u(8), k.n.size() > 9 ? k.u(9) : 0, k.n.size() > 10 ? k.u(10) : 0, k.n.size() > 11 ? k.u(11) : 0};
-  if (c.variant > 2 || c.type > 4 || c.threads < 1 || c.threads > 16 || c.count > 5000 || c.reps > 1000) throw std::logic_error("configuration outside the generated domain");
+  if (c.variant > 2 || c.type > 4 || c.threads < 1 || c.threads > 16 || c.count > 2000000 || c.reps > 1000) throw std::logic_error("configuration outside the generated domain");
+  if (c.count > 5000 && (c.variant == 0 || c.type < 2 || c.block < 1000)) throw std::logic_error("long ranges are generated only for the block variants with large blocks");
   if (c.big && (c.big > 4 || c.type < 3 || c.variant == 2 || c.block > 64 || c.block == 0 || c.hit_rem >= 4096)) throw std::logic_error("big-range configuration outside the generated domain");
   if (c.big) c.count = 0;
   if (c.variant != 0 && (c.block == 0 || c.count % c.block)) throw std::logic_error("block must divide the range");
@@ -201,6 +204,24 @@ static Case gen_stress() {
     c.hit_rem = 0;
     c.rendezvous = 1;
     c.reps = 6;
+  }
+  if (vg::chance(1, 15)) {
+    // large blocks (the block variants walk a whole block between two looks at the shared cursor)
+    c.variant = 1 + vg::below(2);
+    c.type = 2 + vg::below(3);
+    c.block = vg::pick<uint64_t>({4096, 65535, 65536, 65537, 70000, 131072, 200000, 262144 + 1});
+    c.count = c.block * (1 + vg::below(4));
+    c.threads = vg::pick<uint64_t>({1, 2, 3, 4, 8});
+    if (vg::chance(2, 3)) {
+      c.hit_mod = 0;
+      c.hit_rem = 0;
+    } else {
+      c.hit_mod = c.count + 1;
+      c.hit_rem = vg::below(c.count);
+    }
+    c.rendezvous = 0;
+    c.reps = 2;
+    c.start = (c.type == 4) ? static_cast<uint64_t>(-static_cast<int64_t>(vg::below(c.count + 2))) : vg::below(1000);
   }
   c.progress = vg::chance(1, 5) ? 1 : 0;
   c.big = 0;
